@@ -347,6 +347,26 @@ _R7 = {
 }
 for _p, _t in _R7.items():
     CHECKS[_p]["text"] += _t
+
+# ---- round 8 additions ---------------------------------------------------------------------------------------------------
+_R8 = {
+    "C02": " The length block of the portable AEGIS backends carries every bit of mlen and adlen (R2.11 = C10's R10.6 engine).",
+    "C03": " One cipher per stream function: all crypto_core_* calls inside one function of the stream units name the same permutation (R3.10).",
+    "C04": " HKDF-Expand feeds back the block just before the one being produced, in the loop and in the tail, also when the previous block is "
+           "kept in a loop-carried pointer (R4.10).",
+    "C05": " No carry of the field arithmetic behind the portable ladder is identically zero (R5.8, E12).",
+    "C09": " The transcript padding has the documented lengths - (-adlen) mod 16 after the AD, (mlen - 48) mod 16 after the ciphertext - compared as "
+           "affine forms modulo 16 (R9.8).",
+    "C10": " Every X25519 ladder entry reads scalar and point before its first write through q (R10.9 = C05's R5.3 per backend).",
+    "C11": " The verdict of a constant-time comparison is public only when it covers the whole local authenticator it is compared against "
+           "(full-object declassification); the HMAC / Poly1305 verify functions are entry points.",
+    "C12": " Siblings that receive the same argument list from a dispatcher agree on which pointer parameters may be NULL (R12.9).",
+    "C13": " R13.2 also covers every (m, c) function of the AEAD units; callee extents come from explicit length arguments where the callee has one.",
+    "C15": " Reader's and writer's Base64 alphabets agree per variant, by exact finite-domain evaluation of the branch-free table functions (R15.6, E18); "
+           "the two variants differ in digits 62 and 63 only.",
+}
+for _p, _t in _R8.items():
+    CHECKS[_p]["text"] += _t
 _PENDING = "not claimed"
 NOT_APPLICABLE = {
     "C01": "every clause is an equality between computed byte strings and a mathematical specification over all keys/nonces/lengths/backends: "
